@@ -186,6 +186,22 @@ theorem step_terminates (cfg : Cfg K σ) (Inv : σ → Prop) (ρ h : K) (hρ : 0
   · show r'.stepFrom = s.stepFrom
     rw [h3]; rfl
 
+/-- **first_step_terminates.**  From the state built by `RejectionLoop.init` with *any* positive initial step, the first
+`RejectionLoop.step` returns: over an Archimedean field a bound on the number of attempts exists as soon as small
+enough steps from the initial state are acceptable. -/
+theorem first_step_terminates [Archimedean K] (cfg : Cfg K σ) (Inv : σ → Prop) (ρ h : K) (hρ : 0 ≤ ρ)
+    (hρ1 : ρ < 1) (hh : 0 < h)
+    (hpos : CtlPos cfg.ctl) (hinv : CtlInv cfg.ctl Inv) (hcon : CtlContracts cfg.ctl Inv ρ)
+    (hest : ∀ es a b dt, 0 ≤ (cfg.est.estimate es a b dt).1) (t1 : K)
+    (s0 : LSolState K) (dt0 : K) (hdt0 : 0 < dt0) (hahead : cfg.clip = true → s0.t < t1)
+    (hacc : ∀ dt, 0 < dt → dt ≤ h → ¬ (cfg.est.estimate cfg.est.init s0 (cfg.solver.step s0 dt) dt).1 < 1) :
+    ∃ N, ∀ fuel, N ≤ fuel → ∃ s', cfg.step fuel (cfg.init s0 dt0) t1 = some s' ∧ s'.interpFrom = s0 := by
+  obtain ⟨k, hk⟩ := exists_pow_lt_of_lt_one (div_pos hh hdt0) hρ1
+  have hk' : ρ ^ k * dt0 ≤ h := ((lt_div_iff₀ hdt0).mp hk).le
+  refine ⟨k + 1, fun fuel hf => ?_⟩
+  exact step_terminates cfg Inv ρ h hρ hpos hinv hcon hest t1 k (cfg.init s0 dt0) (hinv.1 dt0) hdt0 hahead hacc hk'
+    fuel hf
+
 /-- non-vacuity of `CtlContracts` with `ρ < 1`: the shipped integral controller over `ℚ` -/
 example : CtlContracts (ctlI (⟨Consts.ctlI_safety, Consts.ctlI_factor_min, Consts.ctlI_factor_max⟩ : ICtlP ℚ))
     (fun _ => True) (max Consts.ctlI_factor_min Consts.ctlI_safety) ∧
